@@ -48,9 +48,9 @@ BOUNDS = {
              '(substring start x length, indexOf/lastIndexOf with 6 substrings x start, split/rightSplit x 5 separators x '
              '4 limits, trim family x 5 char sets, replace 6x4x5, 16 ordered dictionaries x 4 counts, affixes, operators); '
              'the 16 strings of length 4 over {a,b} under substring with every start x length; 4-argument indexOf/lastIndexOf on '
-             'length <= 2 (all substrings) and length 3 (2 substrings); all 4096 characters() flag subsets; regex (11 atoms): the '
+             'length <= 2 (all substrings) and length 3 (1 substring); all 4096 characters() flag subsets; regex (11 atoms): the '
              '133 patterns of <= 2 atoms x 6 core forms x (16 strings without flags, 8 strings under each of the 7 other '
-             'flag sets) + 20 further forms without flags on 8 strings; the 3-atom patterns without flags x 3 strings x 6 '
+             'flag sets) + 20 further forms without flags on 8 strings; the 3-atom patterns without flags x 2 strings x 6 '
              'core forms; '
              'every (pattern <= 2 atoms, flag set) also built with positional flags, a skipped slot, on the legacy engine '
              'and through context("regex", engine)(...), each judged by searchAll on 4 flag-sensitive probes; a '
@@ -82,7 +82,7 @@ SHORT3 = over(ALPHA, 3)
 
 SUBS_Q = ['', 'a', 'b', 'ab', 'aa', '\xe9']
 SUBS_T = SUBS_Q + ['ba', ' ', 'bb', 'aba']
-SUBS_Q3 = ['', 'ab']        # quick: 3-argument forms on strings of length 3
+SUBS_Q3 = ['ab']        # quick: 3-argument forms on strings of length 3
 SEPS = [None, 'a', 'ab', '', ' ']
 CHARS = [None, '', 'a', 'ab', ' \xe9']
 OLDS = ['a', 'ab', 'aa', ' ', '\xe9', '']
@@ -103,7 +103,7 @@ RX_SAMPLES = ['A', 'aB', 'Ab\n', 'B\nA', '\xe9', 'a\xe9b', ' a ', 'abab', 'baab'
               '\U0001f600a', 'AB\nab', '\n\nb', 'bbab']
 RX_STRINGS_2 = over(['a', 'b', '\n'], 2)
 RX_STRINGS_3 = over(['a', 'b', '\n'], 3)
-RX_FEW = ['', 'ab', 'ba\nab']
+RX_FEW = ['ab', 'ba\nab']
 RX_MORE_Q = ['', 'a', 'ab', 'ba', '\n', 'a\n', 'A', 'Ab\n']          # quick, the further forms
 RX_FLAGGED_Q = ['', 'a', 'b', '\n', 'ab', 'a\nb', '\nb', 'Ab\n']    # quick, runs with flags set
 
